@@ -4,14 +4,18 @@
 (*          calls; after each the outcome and the projected correlation;     *)
 (*  "load": one GroupLibrary.Load of a tree of include files (written to     *)
 (*          disk by the harness); outcome and projected library contents.    *)
+(*  "lib":  a loaded library, then GroupLibrary.Update(other, overwrite)     *)
+(*          calls with other loaded libraries (the same one possibly more    *)
+(*          than once); after each the outcome and the projected contents    *)
+(*          (a refused merge keeps the groups merged before the conflict).   *)
 (* Group spellings are resolved to keys by GroupNameDef (ParseG, Canon).     *)
 EXTENDS Merge, GroupNameDef, Json, IOUtils
 
 In == JsonDeserialize(IOEnv.VIN)
 Traces == In.traces
 
-VARIABLES vtid, vpos, vskip, vbad, vnev
-tvars == <<macc, merr, vtid, vpos, vskip, vbad, vnev>>
+VARIABLES vtid, vpos, vskip, vbad, vnev, vlib
+tvars == <<macc, merr, vtid, vpos, vskip, vbad, vnev, vlib>>
 
 \* JSON record -> spec record (JSON: h/s arrays of 0..1 ints, cp array of [t, v], rng array)
 Rec(j) == [h |-> j.h, s |-> j.s,
@@ -31,7 +35,7 @@ TreeOf(j) == [groups |-> [x \in 1..Len(j.groups) |->
 LibOut(l) == {<<k, l[k]>> : k \in DOMAIN l}
 LoggedLib(j) == {<<j[x].key, RecOf(j[x].rec)>> : x \in 1..Len(j)}
 
-TInit == CorrInit(EmptyRec) /\ vtid = 1 /\ vpos = 1 /\ vskip = FALSE /\ vbad = {} /\ vnev = 0
+TInit == CorrInit(EmptyRec) /\ vtid = 1 /\ vpos = 1 /\ vskip = FALSE /\ vbad = {} /\ vnev = 0 /\ vlib = <<>>
 
 Advance(ok, info) ==
   IF ok THEN vpos' = vpos + 1 /\ UNCHANGED <<vtid, vskip, vbad>>
@@ -41,14 +45,23 @@ TStep ==
   /\ vtid <= Len(Traces)
   /\ IF vskip \/ vpos > Len(Traces[vtid]) THEN
         /\ vtid' = vtid + 1 /\ vpos' = 1 /\ vskip' = FALSE
-        /\ macc' = EmptyRec /\ merr' = "ok" /\ UNCHANGED <<vbad, vnev>>
+        /\ macc' = EmptyRec /\ merr' = "ok" /\ vlib' = <<>> /\ UNCHANGED <<vbad, vnev>>
      ELSE LET e == Traces[vtid][vpos] IN
         /\ vnev' = vnev + 1
-        /\ \/ /\ e.op = "init" /\ macc' = RecOf(e.rec) /\ merr' = "ok"
+        /\ \/ /\ e.op = "init" /\ macc' = RecOf(e.rec) /\ merr' = "ok" /\ UNCHANGED vlib
               /\ Advance(TRUE, <<>>)
-           \/ /\ e.op = "update" /\ CorrUpdate(RecOf(e.src), e.ow)
+           \/ /\ e.op = "update" /\ CorrUpdate(RecOf(e.src), e.ow) /\ UNCHANGED vlib
               /\ Advance(e.err = merr' /\ RecOf(e.state) = macc', [err |-> merr', rec |-> macc'])
-           \/ /\ e.op = "load" /\ UNCHANGED <<macc, merr>>
+           \/ /\ e.op = "libinit" /\ UNCHANGED <<macc, merr>>
+              /\ LET r == LoadTree(TreeOf(e.tree)) IN
+                 /\ vlib' = (IF r.ok THEN r.lib ELSE <<>>)
+                 /\ Advance(r.ok /\ LoggedLib(e.lib) = LibOut(r.lib), [ok |-> r.ok])
+           \/ /\ e.op = "libupdate" /\ UNCHANGED <<macc, merr>>
+              /\ LET o == LoadTree(TreeOf(e.tree)) u == LibUpd(vlib, o, e.ow) IN
+                 /\ vlib' = u.lib
+                 /\ Advance(e.ok = u.ok /\ (u.ok \/ e.err = "ReadOnlyDataError") /\ LoggedLib(e.lib) = LibOut(u.lib),
+                            [ok |-> u.ok, lib |-> LibOut(u.lib)])
+           \/ /\ e.op = "load" /\ UNCHANGED <<macc, merr, vlib>>
               /\ LET r == LoadTree(TreeOf(e.tree)) IN
                  Advance(IF r.ok THEN e.ok /\ LoggedLib(e.lib) = LibOut(r.lib)
                          ELSE ~e.ok /\ e.err = r.err,
